@@ -1580,8 +1580,17 @@ func c16GenKinds(rt *rapid.T) *c16Case {
 		return v
 	}()).Draw(rt, "badAt")[:nBad]
 	unreadableUsed := false
+	// the same kind of failure in several files of one run (what is done
+	// about the first must be done about the others too)
+	sameKind := ""
+	if nBad >= 2 && rapid.Bool().Draw(rt, "sameKind") {
+		sameKind = rapid.SampledFrom([]string{"rewrite-error", "rewrite-error", "unparseable-result", "unparseable"}).Draw(rt, "sameKindRole")
+	}
 	for _, w := range where {
 		r := rapid.SampledFrom(failing).Draw(rt, "role")
+		if sameKind != "" {
+			r = sameKind
+		}
 		if r == "unreadable" {
 			if unreadableUsed {
 				r = "unparseable"
